@@ -629,6 +629,10 @@ def run(tier, seed):
     if tier == "thorough":
         from harness import c08rigs
         c08rigs.run_all(ck, matcher, RigError)
+    elif ck.broken and not ck.violations and obs is not None:
+        # a proof / correspondence broke without a failing input yet: widen the exhaustive scope (sequences up to length 3)
+        ck.notes.append("widened: method sequences up to length 3 after a broken proof/correspondence")
+        part1_sequences(ck, "thorough")
     ck.exhaustive = True
     ck.extra["exhaustive_scope"] = ("error maps: all 624 (transport, method, outcome) triples; sequences: all in-domain method sequences up to length "
                                    f"{2 if tier == 'quick' else 3}; sim: every write and byte offset of every listed exchange" + (" (long exchanges strided in quick)" if tier == "quick" else ""))
